@@ -66,6 +66,7 @@ class Ctx:
         self.merge_calls = 0
         self.merge_local_paths = 0
         self.fresh = 0
+        self.nonfinite = []  # (guard, value): conditions under which a NaN/inf would have been stored (finiteness obligations)
 
     # -- solver access
     def check(self, *extra):
@@ -835,8 +836,9 @@ SB.__deepcopy__ = SBdeep
 SB.__copy__ = lambda self: self
 
 
-def ite(c, a, b):
-    """If-then-else over proxies / numbers. c is a z3 Bool"""
+def ite(c, a, b, guard_a=None, guard_b=None):
+    """If-then-else over proxies / numbers. c is a z3 Bool. guard_a/guard_b: exact conditions under which arm a / b is the
+    value (used to record finiteness obligations when an arm is NaN/inf; default c / Not(c))"""
     if _same(a, b):
         return a
     if z3.is_true(c):
@@ -847,10 +849,26 @@ def ite(c, a, b):
         return SB(z3.If(c, SB._e(a), SB._e(b)))
     if a is None or b is None:
         raise HarnessError("merge of None and non-None value")
-    for x in (a, b):
-        if isinstance(x, (float, np.floating)) and (x != x or x in (math.inf, -math.inf)):
-            raise HarnessError("merge of a finite and a non-finite value (%r)" % (x,))
+    nf_a = isinstance(a, (float, np.floating)) and (a != a or a in (math.inf, -math.inf))
+    nf_b = isinstance(b, (float, np.floating)) and (b != b or b in (math.inf, -math.inf))
+    if nf_a or nf_b:
+        # A non-finite arm cannot live in a real-valued term: it becomes a tagged fresh variable and its guard is recorded
+        # as a *finiteness obligation* (the harness must prove the guard unreachable or assume it away explicitly)
+        ctx = Ctx.cur
+        if ctx is None:
+            raise HarnessError("merge of a finite and a non-finite value (%r, %r) outside a context" % (a, b))
+        if nf_a and nf_b:
+            return a if (a == b or (a != a and b != b)) else NONFINITE(ctx, c, a, b)
+        fresh = SR(ctx.fresh_real("nonfinite"))
+        guard = (guard_a if guard_a is not None else c) if nf_a else (guard_b if guard_b is not None else z3.Not(c))
+        pc = list(ctx.local_pc) if (ctx.in_merge and ctx.local_pc is not None) else []
+        ctx.nonfinite.append((z3.And(*(pc + [guard])) if pc else guard, float(a if nf_a else b)))
+        return SR(z3.If(c, fresh.e if nf_a else lift(a), lift(b) if nf_a else fresh.e))
     return SR(z3.If(c, lift(a), lift(b)))
+
+
+def NONFINITE(ctx, c, a, b):
+    raise HarnessError("merge of two different non-finite values (%r, %r)" % (a, b))
 
 
 def _same(a, b):
@@ -959,15 +977,15 @@ def _merge_value(pc, new, cur):
     return ite(pc, new, cur)
 
 
-def merged(fn, name=None):
-    """Wrap fn as a merge point (see module docstring)"""
+def merged(fn, name=None, heap_from=None):
+    """Wrap fn as a merge point (see module docstring). heap_from(*args) optionally supplies the mergeable heap"""
     fname = name or getattr(fn, "__qualname__", str(fn))
 
     def wrapper(*args, **kw):
         ctx = Ctx.cur
-        if ctx is None or ctx.in_merge or ctx.heap is None:
+        if ctx is None or ctx.in_merge or (ctx.heap is None and heap_from is None):
             return fn(*args, **kw)
-        heap = ctx.heap
+        heap = heap_from(*args, **kw) if heap_from is not None else ctx.heap
         snap = snapshot(heap)
         outcomes = []
         raises = []
@@ -1039,13 +1057,13 @@ def merged(fn, name=None):
                                 obj.__dict__[k] = cur
                         for idx in np.ndindex(cur.shape):
                             if not _same(new[idx], cur[idx]):
-                                cur[idx] = ite(pc, new[idx], cur[idx])
+                                cur[idx] = ite(pc, new[idx], cur[idx], guard_a=pc, guard_b=pc_last)
                     else:
                         cur = obj.__dict__.get(k)
                         if k not in obj.__dict__:
                             raise HarnessError("merge: attribute %s set on one path only" % k)
                         if not _same(item[1], cur):
-                            obj.__dict__[k] = ite(pc, item[1], cur)
+                            obj.__dict__[k] = ite(pc, item[1], cur, guard_a=pc, guard_b=pc_last)
             if not _same(r, ret):
                 ret = _merge_value(pc, r, ret)
         return ret
